@@ -377,6 +377,24 @@ func runC16_3(c *core.Ctx) {
 							summary[name] = append(summary[name], fname+":ceil")
 							continue
 						}
+						// a helper of the module that normalises its single argument: fld = helper(request)
+						if call, ok := rhs.(*ast.CallExpr); ok && len(call.Args) == 1 {
+							if cf := flow.CalleeFunc(f.Info, call); cf != nil && c.P.InModule(cf) {
+								if hf := fnOf(c, cf); hf != nil && hf.Decl.Body != nil {
+									if okH, items, why := normalisingHelper(c, hf, ceil, fname == "EdgeTriggeredIOChunk"); okH {
+										c.Check(isOld(call.Args[0]), f.Name, construct, as.Pos(), "normalised from the requested value by "+cf.Name(),
+											cf.Name()+" normalises its argument correctly, but it is applied to "+exprStr(call.Args[0])+", which is not the requested value of "+fname+": the capacity that is set has nothing to do with the one that was asked for (it can be smaller than the request, and an unset option loses its default)")
+										for _, it := range items {
+											summary[name] = append(summary[name], fname+":"+it)
+										}
+										continue
+									} else if why != "" {
+										c.Violate(f.Name, construct, as.Pos(), fname+" is set through "+cf.Name()+", which does not normalise its argument: "+why)
+										continue
+									}
+								}
+							}
+						}
 						cv := flow.ConstOf(f.Info, rhs)
 						if cv == nil {
 							// a package-level variable of the module with a constant initialiser that the module never reassigns
@@ -447,6 +465,65 @@ func runC16_3(c *core.Ctx) {
 	sort.Strings(b)
 	c.Check(strings.Join(a, " ") == strings.Join(b, " ") && len(a) > 0, "gnet", "createListeners and NewClient normalise alike", token.NoPos, "sibling blocks agree: "+strings.Join(a, " "),
 		"server and client normalise the buffer options differently: ["+strings.Join(a, " ")+"] vs ["+strings.Join(b, " ")+"]")
+}
+
+// normalisingHelper: every return of hf is CeilToPowerOfTwo(param) or a power-of-two constant that is not
+// below the requests reaching its case (and not below 1 KiB for buffer capacities).
+func normalisingHelper(c *core.Ctx, hf *fn, ceil *types.Func, isChunk bool) (bool, []string, string) {
+	sig := hf.Obj.Type().(*types.Signature)
+	if sig.Params().Len() != 1 || sig.Results().Len() != 1 {
+		return false, nil, ""
+	}
+	param := sig.Params().At(0)
+	isOld := func(e ast.Expr) bool { return flow.ObjOf(hf.Info, e) == types.Object(param) }
+	const noBound = int64(-1 << 62)
+	g := hf.Graph()
+	var items []string
+	why := ""
+	n := 0
+	for _, b := range g.Blocks {
+		if b.Return == nil || len(b.Return.Results) != 1 {
+			continue
+		}
+		n++
+		res := ast.Unparen(b.Return.Results[0])
+		if call, ok := res.(*ast.CallExpr); ok && flow.IsCall(hf.Info, call, ceil) && len(call.Args) == 1 {
+			if !isOld(call.Args[0]) {
+				why = "CeilToPowerOfTwo is applied to something other than the helper's argument"
+			}
+			items = append(items, "ceil")
+			continue
+		}
+		cv := flow.ConstOf(hf.Info, res)
+		if cv == nil {
+			if gv, ok := flow.ObjOf(hf.Info, res).(*types.Var); ok && gv.Pkg() != nil && gv.Parent() == gv.Pkg().Scope() && c.P.InModule(gv) {
+				if iv, assigned := globalInit(c, gv); iv != nil && !assigned {
+					cv = iv
+				}
+			}
+		}
+		if cv == nil {
+			return false, nil, "it returns " + exprStr(res) + ", which is neither CeilToPowerOfTwo(argument) nor a constant"
+		}
+		kv, _ := constant.Int64Val(cv)
+		bound := enclosingUpperBound(hf, g, b, isOld)
+		switch {
+		case !isPow2(kv):
+			why = "the constant " + itoa(int(kv)) + " is not a power of two"
+		case !isChunk && kv < 1024:
+			why = "the constant is below the documented minimum of 1 KiB"
+		case bound != noBound && kv < bound:
+			why = "the constant " + itoa(int(kv)) + " is smaller than requests of up to " + itoa(int(bound)) + " that reach this case"
+		}
+		items = append(items, "const"+itoa(int(kv)))
+	}
+	if n == 0 {
+		return false, nil, ""
+	}
+	if why != "" {
+		return false, nil, why
+	}
+	return true, items, ""
 }
 
 // enclosingUpperBound finds, for block b, the tightest bound K such that every path to b passed the true edge of `old <= K`
